@@ -139,6 +139,19 @@ fn run_file(j: &Value) -> Value {
             let _ = std::fs::create_dir_all(root.join(d.as_str().unwrap_or("")));
         }
     }
+    // symbolic links: [path of the link, what it points to]
+    if let Some(links) = j.get("links").and_then(|v| v.as_array()) {
+        for l in links {
+            let at = root.join(l[0].as_str().unwrap_or(""));
+            if let Some(parent) = at.parent() {
+                let _ = std::fs::create_dir_all(parent);
+            }
+            let _ = std::fs::remove_file(&at);
+            if std::os::unix::fs::symlink(l[1].as_str().unwrap_or(""), &at).is_err() {
+                return json!({"r": "tool", "text": format!("cannot link {:?}", at)});
+            }
+        }
+    }
     // named pipes nobody writes to
     if let Some(fifos) = j.get("fifos").and_then(|v| v.as_array()) {
         for f in fifos {
